@@ -449,12 +449,186 @@ pub fn deep_stream_families(set2: bool, thorough: bool) -> (Vec<Vec<u8>>, (usize
                     v.extend(e2(k, KeyState::Down));
                     v.extend(e2(k, KeyState::Up));
                 }
+                // tails: the last key again twice (typematic after taps), a key and an extended key,
+                // an extended make followed by the break of its non-extended twin, doubled prefixes,
+                // protocol bytes, a byte that belongs to the other set
+                let last = typed[(off + 2999 % kk) % typed.len()];
+                v.extend(e2(last, KeyState::Down));
+                v.extend(e2(last, KeyState::Down));
+                v.extend(e2(last, KeyState::Up));
                 v.extend(enc(KeyCode::A, KeyState::Down));
                 v.extend(enc(KeyCode::A, KeyState::Up));
                 v.extend(enc(KeyCode::ArrowUp, KeyState::Down));
+                v.extend(enc(KeyCode::Numpad8, KeyState::Up));
                 v.extend(enc(KeyCode::ArrowUp, KeyState::Up));
+                v.extend([0xE0, 0xE0]);
+                v.extend(enc(KeyCode::Numpad8, KeyState::Down));
+                v.extend([0xFA, 0x00, 0xFF, 0xEE, 0xFE]);
+                v.extend(enc(KeyCode::Q, KeyState::Down));
                 v.push(if set2 { 0x9C } else { 0xF0 });
                 fam.push(v);
+            }
+        }
+    }
+    // G1f': typing with 1-3 modifiers held, every key different from the previous one
+    for mods in [vec![KeyCode::LShift], vec![KeyCode::LControl, KeyCode::LAlt], vec![KeyCode::RShift, KeyCode::RControl, KeyCode::RAltGr]] {
+        for kk in [2usize, 3, 7, 30] {
+            let mut v = Vec::new();
+            for m in &mods { v.extend(enc(*m, KeyState::Down)); }
+            for i in 0..1500usize {
+                let k = typed[(20 + i % kk) % typed.len()];
+                if mods.contains(&k) { continue; }
+                v.extend(enc(k, KeyState::Down));
+                v.extend(enc(k, KeyState::Up));
+            }
+            for m in mods.iter().rev() { v.extend(enc(*m, KeyState::Up)); }
+            v.extend(enc(KeyCode::A, KeyState::Down));
+            fam.push(v);
+        }
+    }
+    // G1h: what a real 101/104-key keyboard sends: navigation keys wrapped in fake shifts
+    // (E0 12 / E0 59 and their breaks) depending on the Shift / NumLock state, PrintScreen and
+    // Pause sequences, each repeated a few times
+    {
+        let nav = [KeyCode::Insert, KeyCode::Home, KeyCode::PageUp, KeyCode::Delete, KeyCode::End, KeyCode::PageDown, KeyCode::ArrowUp, KeyCode::ArrowLeft, KeyCode::ArrowDown, KeyCode::ArrowRight, KeyCode::NumpadDivide];
+        // fake shift bytes per set: (make, break) of the fake LShift and fake RShift
+        let (fl_m, fl_b, fr_m, fr_b): (Vec<u8>, Vec<u8>, Vec<u8>, Vec<u8>) = if set2 {
+            (vec![0xE0, 0x12], vec![0xE0, 0xF0, 0x12], vec![0xE0, 0x59], vec![0xE0, 0xF0, 0x59])
+        } else {
+            (vec![0xE0, 0x2A], vec![0xE0, 0xAA], vec![0xE0, 0x36], vec![0xE0, 0xB6])
+        };
+        for shift in 0..4u8 {
+            for numlock in [false, true] {
+                for (reps, typematic) in [(1usize, false), (1, true), (3, false), (40, false), (40, true)] {
+                    let mut v = Vec::new();
+                    if shift & 1 != 0 { v.extend(enc(KeyCode::LShift, KeyState::Down)); }
+                    if shift & 2 != 0 { v.extend(enc(KeyCode::RShift, KeyState::Down)); }
+                    for _ in 0..reps {
+                        for k in nav {
+                            // shifted: the keyboard un-shifts around the key; NumLock on and no shift: it shifts
+                            let (pre, post): (Vec<u8>, Vec<u8>) = if shift != 0 {
+                                let mut pre = Vec::new(); let mut post = Vec::new();
+                                if shift & 1 != 0 { pre.extend(&fl_b); post.extend(&fl_m); }
+                                if shift & 2 != 0 { pre.extend(&fr_b); post.extend(&fr_m); }
+                                (pre, post)
+                            } else if numlock { (fl_m.clone(), fl_b.clone()) } else { (vec![], vec![]) };
+                            v.extend(&pre);
+                            v.extend(enc(k, KeyState::Down));
+                            if typematic { v.extend(enc(k, KeyState::Down)); }
+                            v.extend(enc(k, KeyState::Up));
+                            v.extend(&post);
+                        }
+                        // PrintScreen and Pause as sent on the wire
+                        if set2 {
+                            v.extend([0xE0, 0x12, 0xE0, 0x7C, 0xE0, 0xF0, 0x7C, 0xE0, 0xF0, 0x12]);
+                            v.extend([0xE1, 0x14, 0x77, 0xE1, 0xF0, 0x14, 0xF0, 0x77]);
+                        } else {
+                            v.extend([0xE0, 0x2A, 0xE0, 0x37, 0xE0, 0xB7, 0xE0, 0xAA]);
+                            v.extend([0xE1, 0x1D, 0x45, 0xE1, 0x9D, 0xC5]);
+                        }
+                    }
+                    if shift & 2 != 0 { v.extend(enc(KeyCode::RShift, KeyState::Up)); }
+                    if shift & 1 != 0 { v.extend(enc(KeyCode::LShift, KeyState::Up)); }
+                    v.extend(enc(KeyCode::A, KeyState::Down));
+                    v.extend(&fl_m);
+                    v.extend(enc(KeyCode::LShift, KeyState::Up));
+                    fam.push(v);
+                }
+            }
+        }
+    }
+    // G1k: lossy device: typing that includes extended keys, where the device drops the E0
+    // prefix of every break / of every make / drops the F0 (Set 2) of every n-th break
+    {
+        let ext = [KeyCode::RAltGr, KeyCode::RControl, KeyCode::ArrowUp, KeyCode::Home, KeyCode::LWin, KeyCode::NumpadEnter, KeyCode::Delete];
+        let plain = [KeyCode::A, KeyCode::S, KeyCode::Spacebar, KeyCode::LShift];
+        for variant in 0..4u8 {
+            for nplain in [0usize, 1, 3] {
+                let mut v = Vec::new();
+                for i in 0..2500usize {
+                    let k = ext[i % ext.len()];
+                    let (mut mk, mut bk) = (enc(k, KeyState::Down), enc(k, KeyState::Up));
+                    match variant {
+                        0 => { bk.remove(0); }                 // break loses E0
+                        1 => { mk.remove(0); }                 // make loses E0
+                        2 => { if i % 3 == 0 { bk.remove(0); } }
+                        _ => { if set2 && i % 4 == 1 { bk.retain(|b| *b != 0xF0); } }
+                    }
+                    v.extend(&mk);
+                    v.extend(&bk);
+                    for j in 0..nplain {
+                        let p = plain[(i + j) % plain.len()];
+                        v.extend(enc(p, KeyState::Down));
+                        if !(variant == 3 && p == KeyCode::A) { v.extend(enc(p, KeyState::Up)); }
+                    }
+                }
+                for k in ext {
+                    v.extend(enc(k, KeyState::Down));
+                    let mut bk = enc(k, KeyState::Up);
+                    bk.remove(0);
+                    v.extend(&bk);
+                    v.extend(enc(k, KeyState::Up));
+                }
+                fam.push(v);
+            }
+        }
+    }
+    // G1i: three-phase small-count grid U^a K^b P^c: a few undefined codes, a key repeated, then
+    // any byte once or twice (statistics-driven heuristics with small thresholds)
+    {
+        let errs: Vec<Vec<u8>> = vec![vec![0x02], vec![0xFF], vec![0xE0, 0x02], vec![0x00]];
+        let ks = [KeyCode::A, KeyCode::ArrowUp, KeyCode::Numpad8, KeyCode::LControl, KeyCode::RControl, KeyCode::F7];
+        for u in &errs {
+            for a in [0usize, 8, 40] {
+                for k in ks {
+                    let mk = enc(k, KeyState::Down);
+                    if mk.is_empty() { continue; }
+                    for b in [5usize, 16, 32, 300] {
+                        let mut base = Vec::new();
+                        for _ in 0..a { base.extend(u); }
+                        for _ in 0..b { base.extend(&mk); }
+                        for p in 0..=255u8 {
+                            for c in [1usize, 2] {
+                                let mut v = base.clone();
+                                v.extend(std::iter::repeat(p).take(c));
+                                v.extend(enc(k, KeyState::Up));
+                                fam.push(v);
+                            }
+                        }
+                    }
+                }
+            }
+        }
+    }
+    // G1j: power-of-two boundaries: any byte repeated n times for n around 1024 / 2048 / 4096,
+    // then prefixed traffic (window-based statistics that act exactly at a boundary)
+    {
+        let tail: Vec<u8> = [vec![0xE0], enc(KeyCode::Numpad8, KeyState::Down), enc(KeyCode::ArrowUp, KeyState::Down), enc(KeyCode::ArrowUp, KeyState::Up), vec![0xE0, 0xE0], enc(KeyCode::Numpad8, KeyState::Down)].concat();
+        for b in 0..=255u8 {
+            for n in [1023usize, 1024, 1025, 2047, 2048, 2049, 4095, 4096, 4097] {
+                if n > 3000 && !thorough && b % 8 != 2 { continue; }
+                let mut v = vec![b; n];
+                v.extend(&tail);
+                fam.push(v);
+            }
+        }
+        // two phases of ~1100 each (e.g. 1024 good events, 1024 undefined codes), then the tail
+        let goods = [enc(KeyCode::A, KeyState::Down), [enc(KeyCode::A, KeyState::Down), enc(KeyCode::A, KeyState::Up)].concat()];
+        for g in &goods {
+            for b in [0x02u8, 0x7F, 0xFF, 0x00, 0xFA] {
+                for (i, j) in [(1024usize, 1024usize), (1100, 1100), (2048, 300)] {
+                    for order in [false, true] {
+                        let mut v = Vec::new();
+                        let (mut first, mut second): (Vec<u8>, Vec<u8>) = (Vec::new(), Vec::new());
+                        for _ in 0..i { first.extend(g); }
+                        for _ in 0..j { second.push(b); }
+                        if order { v.extend(&second); v.extend(&first); } else { v.extend(&first); v.extend(&second); }
+                        v.extend(&tail);
+                        v.extend([0xFA, 0x00, 0xFF]);
+                        v.extend(enc(KeyCode::Q, KeyState::Down));
+                        fam.push(v);
+                    }
+                }
             }
         }
     }
@@ -554,14 +728,45 @@ fn deep_streams<M: RefModel>(run: &mut Run, mtab: &[Vec<(Out, usize)>], ctxs: &[
             out.into_iter()
         }).collect()
     };
-    let total = fam.len() as u64 + (cells.len() * cells.len()) as u64;
+    // every defined make sequence paired with EVERY cell (defined or not), repeated 24 times
+    let mut all_cells: Vec<Vec<u8>> = Vec::new();
+    let mut make_cells: Vec<Vec<u8>> = Vec::new();
+    for p in sc::PFXS {
+        for c in 0..=255u8 {
+            if !set2 && c >= 0x80 { continue; }
+            let mut m = Vec::new();
+            if let Some(b) = p.byte() { m.push(b); }
+            let mut brk = m.clone();
+            if set2 { m.push(c); brk.push(0xF0); brk.push(c); } else { m.push(c); brk.push(c | 0x80); }
+            let defined = if set2 { sc::set2_lookup(p, c).is_some() } else { sc::set1_lookup(p, c).is_some() };
+            if defined { make_cells.push(m.clone()); }
+            all_cells.push(m);
+            all_cells.push(brk);
+        }
+    }
+    let bad_pairs2: Vec<Vec<u8>> = {
+        let rr: &Run = run;
+        make_cells.par_iter().flat_map_iter(|c1| {
+            let mut out = Vec::new();
+            for c2 in &all_cells {
+                let unit: Vec<u8> = [c1.clone(), c2.clone()].concat();
+                let v: Vec<u8> = unit.iter().copied().cycle().take(unit.len() * reps).collect();
+                if let Some(k) = fast_mismatch::<M>(rr, mtab, ctxs, start_c, &v) {
+                    if out.len() < 2 { out.push(v[..=k].to_vec()); }
+                }
+            }
+            out.into_iter()
+        }).collect()
+    };
+    let bad_pairs: Vec<Vec<u8>> = bad_pairs.into_iter().chain(bad_pairs2.into_iter()).collect();
+    let total = fam.len() as u64 + (cells.len() * cells.len()) as u64 + (make_cells.len() * all_cells.len()) as u64;
     run.eval(total);
     run.nontrivial_enum(total);
     for v in bad.iter().chain(bad_pairs.iter()).take(10) {
         eval_stream::<M>(run, v);
     }
     run.total_violating_cases += (bad.len() + bad_pairs.len()).saturating_sub(10) as u64;
-    run.part("deep_history_families", json!({"A^700.B^j.tail": g1a, "A.s.A^2500": g1b, "X.F^n.P(wrap probes, n around 2^8 / 2^16)": g1d, "(A^p.B)^m two-scale periodic + long typing sessions (own and other set encoding) + burst cycles (c1^a c2^b)^30": g1e, "cells": cells.len(), "(c1.c2)^24 pairs": cells.len() * cells.len(), "failing": bad.len() + bad_pairs.len()}));
+    run.part("deep_history_families", json!({"A^700.B^j.tail": g1a, "A.s.A^2500": g1b, "X.F^n.P(wrap probes, n around 2^8 / 2^16)": g1d, "(A^p.B)^m two-scale periodic + long typing sessions (own and other set encoding) + burst cycles (c1^a c2^b)^30 + typing with 1-3 modifiers held + real-keyboard traffic with fake shifts + U^a.K^b.P^c grid + power-of-two boundaries + lossy-device sessions (dropped E0 / F0)": g1e, "cells": cells.len(), "(c1.c2)^24 pairs": cells.len() * cells.len(), "(defined make . any cell)^24 pairs": make_cells.len() * all_cells.len(), "failing": bad.len() + bad_pairs.len()}));
 }
 
 /// byte patterns that are repeated tens of thousands of times
@@ -1532,13 +1737,101 @@ fn c19_table_after<D: Dec>(run: &mut Run, hist: &[u8]) {
     }
 }
 
+/// Pairing and injectivity after LONG histories: every defined key held for 16 / 40 repeats,
+/// typing sessions, real-keyboard traffic, and "a few undefined codes, a key repeated, the bare
+/// code byte" grids. The history is fed once, the resulting state is cloned for every cell.
+fn c19_after_long_histories<D: Dec>(run: &mut Run) {
+    let set2 = D::IS_SET2;
+    let enc = |k: KeyCode, st: KeyState| -> Vec<u8> { if set2 { sc::set2_encode(k, st) } else { sc::set1_encode(k, st) }.unwrap_or_default() };
+    let mut hists: Vec<Vec<u8>> = Vec::new();
+    for (k, s1, s2) in sc::TABLE.iter() {
+        if (if set2 { s2 } else { s1 }).is_none() { continue; }
+        let mk = enc(*k, KeyState::Down);
+        if mk.is_empty() { continue; }
+        for n in [16usize, 40, 300] {
+            hists.push(mk.iter().copied().cycle().take(mk.len() * n).collect());
+        }
+        // undefined codes, the key repeated, then its bare code byte once
+        for a in [8usize, 40] {
+            for b in [5usize, 32] {
+                let mut v = vec![0x02u8; a];
+                for _ in 0..b { v.extend(&mk); }
+                v.push(*mk.last().unwrap());
+                // make sure the history ends at a sequence boundary
+                hists.push(v);
+            }
+        }
+    }
+    let (fam, _) = deep_stream_families(set2, false);
+    // the long sessions / real-traffic members of the byte families (those longer than 2000 bytes
+    // or containing fake shifts), a bounded sample
+    for v in fam.iter().filter(|v| v.len() > 3000).step_by(7).take(120) {
+        hists.push(v.clone());
+    }
+    let codes: Vec<u8> = if set2 { (0..=255u8).collect() } else { (0..=0x7Fu8).collect() };
+    let cells: Vec<(Pfx, u8, Vec<u8>, Vec<u8>)> = sc::PFXS.iter().flat_map(|p| codes.iter().map(move |c| (*p, *c))).map(|(p, c)| { let (m, b) = c19_forms::<D>(p, c); (p, c, m, b) }).collect();
+    let bad: Vec<(usize, Pfx, u8, &'static str)> = hists
+        .par_iter()
+        .enumerate()
+        .flat_map_iter(|(hi, h)| {
+            let mut bad = Vec::new();
+            let st = guard(|| {
+                let mut d = D::fresh();
+                let mut last = Ok(None);
+                for b in h { last = d.advance_state(*b); }
+                (d, last)
+            });
+            let Ok((st, last)) = st else { return vec![(hi, Pfx::None, 0u8, "panic")].into_iter() };
+            if matches!(last, Ok(None)) && !h.is_empty() {
+                return bad.into_iter(); // history does not end at a sequence boundary
+            }
+            let run_from = |bytes: &[u8]| -> Option<ScOut> {
+                let mut d = st.clone();
+                guard(|| { let mut l = Ok(None); for b in bytes { l = d.advance_state(*b); } l }).ok()
+            };
+            let mut downs: HashMap<u8, (Pfx, u8)> = HashMap::new();
+            for (p, c, m, b) in &cells {
+                let (Some(om), Some(ob)) = (run_from(m), run_from(b)) else { bad.push((hi, *p, *c, "panic")); continue };
+                let (mk, bk) = (ev_of(&om), ev_of(&ob));
+                let ok = match mk {
+                    Some((k, KeyState::Down)) => {
+                        if downs.insert(k as u8, (*p, *c)).is_some() && bad.len() < 4 { bad.push((hi, *p, *c, "dup")); }
+                        bk == Some((k, KeyState::Up))
+                    }
+                    Some((_, KeyState::SingleShot)) => true,
+                    Some((_, KeyState::Up)) => false,
+                    None => !matches!(bk, Some((_, KeyState::Up))),
+                } && !matches!(bk, Some((_, KeyState::Down)))
+                    && !(matches!(bk, Some((_, KeyState::SingleShot))) && !matches!(mk, Some((_, KeyState::SingleShot))));
+                if !ok && bad.len() < 4 { bad.push((hi, *p, *c, "pair")); }
+            }
+            bad.into_iter()
+        })
+        .collect();
+    let cases = (hists.len() * cells.len()) as u64;
+    run.eval(cases);
+    run.nontrivial_enum(cases);
+    for (hi, p, c, kind) in bad.iter().take(8) {
+        if *kind == "dup" {
+            c19_table_after::<D>(run, &hists[*hi]);
+        } else {
+            let (mut d, mut u) = (BTreeMap::new(), BTreeMap::new());
+            c19_eval_cell_after::<D>(run, &hists[*hi], *p, *c, &mut d, &mut u);
+        }
+    }
+    run.total_violating_cases += bad.len().saturating_sub(8) as u64;
+    run.part(&format!("{}_pairs_after_long_histories", D::NAME), json!({"histories": hists.len(), "cases": cases, "failing(sampled)": bad.len()}));
+}
+
 pub fn c19(run: &mut Run) {
-    run.rule = "Exhaustive, no reference table: for both decoders x 3 prefix contexts x every code byte (256 for Set 2, 128 for Set 1) the make form ([prefix] code) and the break form (Set 2: [prefix] F0 code; Set 1: [prefix] code|0x80) are fed to fresh decoders. Oracle: make yields Down(K) <=> break yields Up(K); no break names a key without a make; the maps sequence -> key are injective on makes and on breaks; one-shot makes are exempt. The same forms are then decoded after every complete sequence (every event-yielding make and break form plus sampled rejected ones) and must decode exactly as on a fresh decoder; and the pairing/injectivity oracle is applied from every reachable sequence-boundary state of the extracted decoder graph (initial state + every state entered by an event or error, up to the state cap), each finding re-run through its witness history. Non-trivial = a (set, prefix, code) cell for which make or break yields an event; distinct by that triple.".into();
+    run.rule = "Exhaustive, no reference table: for both decoders x 3 prefix contexts x every code byte (256 for Set 2, 128 for Set 1) the make form ([prefix] code) and the break form (Set 2: [prefix] F0 code; Set 1: [prefix] code|0x80) are fed to fresh decoders. Oracle: make yields Down(K) <=> break yields Up(K); no break names a key without a make; the maps sequence -> key are injective on makes and on breaks; one-shot makes are exempt. The same forms are then decoded after every complete sequence (every event-yielding make and break form plus sampled rejected ones) and must decode exactly as on a fresh decoder; and the pairing/injectivity oracle is applied from every reachable sequence-boundary state of the extracted decoder graph (initial state + every state entered by an event or error, up to the state cap), each finding re-run through its witness history; and after long histories (every key held 16/40/300 repeats, undefined codes + repeated key + bare code byte, long typing sessions and real-keyboard traffic). Non-trivial = a (set, prefix, code) cell for which make or break yields an event; distinct by that triple.".into();
     run.assumptions = vec!["decoders are deterministic; each cell is an independent execution from new()".into()];
     c19_for::<ScancodeSet2>(run);
     c19_for::<ScancodeSet1>(run);
     c19_per_state::<ScancodeSet2>(run);
     c19_per_state::<ScancodeSet1>(run);
+    c19_after_long_histories::<ScancodeSet2>(run);
+    c19_after_long_histories::<ScancodeSet1>(run);
     run.exhaustive = true;
 }
 
@@ -1878,6 +2171,69 @@ pub fn c13(run: &mut Run) {
             c13_eval_e2e(run, L_US, &bytes);
         }
         run.part("reachable_decoder_state_pairs", json!({"set2_graph_states": g2.states.len(), "set1_graph_states": g1.states.len(), "graphs_closed": [g2.closed, g1.closed], "pairs_visited": pairs.len(), "pair_cap": pair_cap, "cell_steps": steps, "failing(sampled)": bad.len()}));
+    }
+
+    // Deep-history families that consist of well-formed translatable cells only (key held for
+    // hundreds of repeats, long typing sessions, typing with modifiers held, real-keyboard traffic
+    // with fake shifts, taps followed by typematic) through both decoders under the translation
+    {
+        let (fam, _) = deep_stream_families(true, run.tier == Tier::Thorough);
+        let mut extra: Vec<Vec<u8>> = Vec::new();
+        // taps of one key n times, then the key twice (typematic), for n around typical thresholds
+        for k in [KeyCode::A, KeyCode::ArrowUp, KeyCode::LShift] {
+            let (mk, bk) = (sc::set2_encode(k, KeyState::Down).unwrap(), sc::set2_encode(k, KeyState::Up).unwrap());
+            for n in [100usize, 500, 900, 1500, 3000] {
+                let mut v = Vec::new();
+                for _ in 0..n { v.extend(&mk); v.extend(&bk); }
+                v.extend(&mk); v.extend(&mk); v.extend(&bk);
+                // an extended key pressed, its non-extended twin released
+                v.extend([0xE0, 0x75, 0xF0, 0x75, 0xE0, 0xF0, 0x75, 0xE0, 0x14, 0xF0, 0x14]);
+                extra.push(v);
+            }
+        }
+        let cands: Vec<&Vec<u8>> = fam.iter().chain(extra.iter()).collect();
+        let judged: Vec<(&Vec<u8>, Vec<u8>)> = cands.into_iter().filter_map(|v| {
+            let s1 = sc::xlat_stream(v)?;
+            // well-formed only: no prefix in code position, no doubled F0
+            let mut c = Ctx2::Start;
+            for b in v.iter() {
+                let (o, n) = sc::set2_step(c, *b);
+                if matches!(o, Out::Unknown) && matches!(*b, 0xE0 | 0xE1 | 0xF0) { return None; }
+                c = n;
+            }
+            if c != Ctx2::Start { return None; }
+            Some((v, s1))
+        }).collect();
+        let bad: Vec<usize> = judged.par_iter().enumerate().filter_map(|(i, (s2, s1))| {
+            let e2: Option<Vec<_>> = run_bytes::<ScancodeSet2>(s2).ok().map(|v| v.iter().filter_map(ev_of).collect());
+            let e1: Option<Vec<_>> = run_bytes::<ScancodeSet1>(s1).ok().map(|v| v.iter().filter_map(ev_of).collect());
+            if e2 != e1 { Some(i) } else { None }
+        }).collect();
+        run.eval(judged.len() as u64);
+        run.nontrivial_enum(judged.len() as u64);
+        let mut reported = 0;
+        for i in &bad {
+            // streams that contain a cell which already disagrees alone (the known finding) are
+            // excluded here exactly as in the pair layers
+            let s2 = judged[*i].0;
+            let mut c = Ctx2::Start; let mut seq: Vec<u8> = Vec::new(); let mut has_disagreeing_cell = false;
+            for b in s2.iter() {
+                seq.push(*b);
+                let (o, n) = sc::set2_step(c, *b);
+                if !matches!(o, Out::None) {
+                    if let Some(s1c) = sc::xlat_stream(&seq) {
+                        let a = last_out::<ScancodeSet2>(&seq).ok().and_then(|o| ev_of(&o));
+                        let bb = last_out::<ScancodeSet1>(&s1c).ok().and_then(|o| ev_of(&o));
+                        if a != bb { has_disagreeing_cell = true; break; }
+                    }
+                    seq.clear();
+                }
+                c = n;
+            }
+            if has_disagreeing_cell { continue; }
+            if reported < 6 { c13_eval_e2e(run, L_US, s2); reported += 1; }
+        }
+        run.part("deep_history_families(translatable streams)", json!({"streams": judged.len(), "diverging": bad.len(), "reported": reported}));
     }
 
     // end-to-end scripts; keys whose forward cell is a listed known finding are excluded by
